@@ -79,6 +79,8 @@ SPECS.append({
  "harnesses": [
   H("C07", DB, "OnlyFallback", "both", ["lexical-answer", "no-lexical-answer"], "7-command database, 1-2 symbolic query words, limit 1..3, threshold any int", "fallback never overrides a lexical answer"),
   H("C07", DB, "OnlyFallbackNLP", "both", ["lexical-answer", "no-lexical-answer"], "same with UseNLP", "same"),
+  H("C07", DB, "OnlyFallbackExpansion", "both", ["lexical-answer", "no-lexical-answer"], "8 commands named like hint targets; symbolic 4-letter query word (+ optional second word), NLP on", "answers that exist only through NLP expansion are not overridden either"),
+  H("C07", DB, "FallbackLongText", "both", ["fallback", "fallback-nonempty"], "a 132-character command text; 2 symbolic query letters; threshold 0 / -1000", "a genuine match with a very low raw score is still returned"),
   H("C07", DB, "Matcher23", "both", ["matched", "unmatched"], "pattern 1-2, target 0-3 symbolic ASCII bytes", "match <=> in-order occurrence; index sanity"),
   H("C07", DB, "Matcher35", "thorough", ["matched", "unmatched"], "pattern 1-3, target 0-5 symbolic ASCII bytes", "same"),
   H("C07", DB, "Fallback3", "thorough", ["fallback", "fallback-nonempty"], "3 commands with long words, 2 symbolic query letters, threshold any int", "genuine matches, threshold, order, completeness"),
@@ -101,6 +103,7 @@ SPECS.append({
   H("C10", DB, "Query2", "both", ["returned"], "query = 2 arbitrary bytes; limit, term cap, threshold any int; pipeline boost any float64", "SearchUniversal total", panic_freedom=True),
   H("C10", DB, "Query2NLP", "both", ["returned"], "same with UseNLP", "same", panic_freedom=True),
   H("C10", DB, "Query3", "thorough", ["returned"], "3 arbitrary bytes", "same", panic_freedom=True),
+  H("C10", DB, "EmptyFields", "both", ["returned"], "entries with empty / blank command, description, keyword, tag; 5 queries; NLP / fuzzy symbolic; 4 entry points", "well-formed entries with missing fields never crash a search", panic_freedom=True),
   H("C10", DB, "Tokenize3", "both", ["returned"], "tokeniser on 3 arbitrary bytes", "tokeniser total, token invariants"),
   H("C10", DB, "Tokenize4", "thorough", ["returned"], "4 arbitrary bytes", "same"),
   H("C10", DB, "Legacy", "thorough", ["returned"], "4 legacy entry points, arbitrary option values, 2 arbitrary query bytes", "legacy entry points total", panic_freedom=True),
@@ -156,6 +159,7 @@ SPECS.append({
  "trusted_base": TB,
  "harnesses": [
   H("C08", "internal/cli", "Save2", "both", ["saved"], "notebook missing or 0..2 symbolic entries; symbolic new entry", "replace-or-append, neighbours preserved, fields stored exactly"),
+  H("C08", DB, "Merge", "both", ["merged", "searched"], "main file with 2 entries, notebook missing or 0-2 entries; command strings over a 2-letter alphabet (collisions with main / each other)", "searched database = main ++ notebook; a saved command is found by its words"),
   H("C08", "internal/cli", "Save3", "thorough", ["saved"], "0..3 entries", "same"),
  ],
  "manifest": {"text": "Bounded symbolic model checking of the notebook's read-modify-write kernel under an assumed YAML round trip; the process-level parts of the property (cobra start-up, real YAML fidelity) are stated as outside the claim.",
@@ -227,7 +231,7 @@ SPECS.append({
  "outside_the_claim": ["histories longer than 4 steps", "hash collisions of SHA-256"],
  "trusted_base": TB,
  "harnesses": [
-  H("C05", DB, "Delta", "both", ["searched", "done"], "2 requests; 6 symbolic flags x 2 limits; 10 one-field deltas; 4x4 query variants", "requests that differ in anything that changes the answer never share an entry", synctest=True),
+  H("C05", DB, "Delta", "both", ["searched", "done"], "2 requests; 6 symbolic flags x 2 limits; 14 one-field deltas (incl. pipeline boost, fuzzy threshold, boost values); 4x4 query variants", "requests that differ in anything that changes the answer never share an entry", synctest=True),
   H("C05", DB, "PairsMonitored", "both", ["searched", "done"], "2 requests through the monitoring wrapper; 6 option sets x 5 queries each", "monitored wrapper's own projection", synctest=True),
   H("C05", DB, "OffOn", "both", ["searched", "done"], "search; optionally disable; replace / invalidate / nothing; optionally search while off; enable; search", "no entry outlives a replacement made while the cache is off (also C01 on the cached path)", synctest=True),
   H("C05", DB, "Hist3", "thorough", ["searched", "done"], "search, one of 6 operations, search", "no entry outlives invalidation / replacement; disabled cache is bypassed", synctest=True),
